@@ -214,6 +214,8 @@ class Shifter:
 
     def rng(self, f, r):
         l0, c0, l1, c1 = r
+        if (f, l0) not in self.by and (l1 == l0 or (f, l1) not in self.by):
+            return r            # no edit on these lines: position unchanged
         if (f, l0, c0, l1, c1) in self.set:
             s = shift_col(self.by[(f, l0)], c0, self.new_len)
             return [l0, s, l1, s + self.new_len]
@@ -288,19 +290,154 @@ def parse_changes(result):
     return out
 
 
+DUP_FILE = "zz_dup_hist.vhd"
+DUP_FINAL = "package zz_dup_hist_pk is\nend package zz_dup_hist_pk;\n"
+
+
+def add_history(g, R):
+    """Turns project g into a HISTORY session: the server runs on a workspace whose disk contents differ from the
+    client's text (unsaved edits that shift lines/columns), sees configuration reloads of every kind, a duplicate-unit
+    clash that is resolved by editing the other file, and only then the rename requests.  The client's final text is
+    exactly g["texts"] (+ one harmless extra file), so the oracle (fresh analysis before/after) is unchanged."""
+    import re
+    lib0 = None
+    # the unit that is duplicated: a primary entity/package of some file
+    cands = []
+    for f in g["order"]:
+        for m in re.finditer(r"(?im)^[ \t]*(entity|package)[ \t]+([A-Za-z][A-Za-z0-9_]*)[ \t]+is\b", g["texts"][f]):
+            cands.append((f, m.group(1).lower(), m.group(2)))
+    g["hist"] = {"clash": None}
+    if cands:
+        f, kind, name = R.choice(cands)
+        lib0 = [l for l, fs in g["libs"].items() if f in fs][0]
+        g["hist"]["clash"] = {"file": f, "kind": kind, "unit": name,
+                              "dup_text": "%s %s is\nend %s %s;\n" % (kind, name, kind, name)}
+    lib0 = lib0 or list(g["libs"])[0]
+    g["texts"] = dict(g["texts"])
+    g["texts"][DUP_FILE] = DUP_FINAL
+    g["order"] = list(g["order"]) + [DUP_FILE]
+    g["libs"] = {l: list(fs) + ([DUP_FILE] if l == lib0 else []) for l, fs in g["libs"].items()}
+    # unsaved edits: disk text differs from the client's text
+    others = [f for f in g["order"] if f != DUP_FILE]
+    R.shuffle(others)
+    shifted = {}
+    disk = dict(g["texts"])
+    for f in others[:max(2, len(others) // 2)]:
+        v = R.choice(["lines", "cols", "both", "open_only"])
+        t = g["texts"][f]
+        if v == "lines":
+            disk[f] = "-- stale header\n\n" + t
+        elif v == "cols":
+            disk[f] = " " + t.replace("\n", "\n ")
+        elif v == "both":
+            disk[f] = "-- stale\n  " + t.replace("\n", "\n  ")
+        else:
+            disk[f] = "-- only on disk\n" + t
+        shifted[f] = v
+    g["hist"]["shifted"] = shifted
+    g["disk_texts"] = disk
+    acts = ["touch", "drop_restore", "create", "rename", "delete"]
+    R.shuffle(acts)
+    g["hist"]["reloads"] = acts[:R.randrange(2, 5)]
+    drop = [f for f in others if not g["hist"]["clash"] or f != g["hist"]["clash"]["file"]]
+    g["hist"]["drop_file"] = R.choice(drop) if drop else None
+    g["family"] = "history:%s" % g["family"]
+    g["history"] = True
+    return g
+
+
+def toml_text(libs, without=None):
+    out = "[libraries]\n"
+    for lib, fs in libs.items():
+        out += "%s.files = [%s]\n" % (lib, ", ".join("'%s'" % x for x in fs if x != without))
+    return out
+
+
+def run_history(ls, sdir, g, view):
+    h = g["hist"]
+    ver = {}
+
+    def U(f):
+        return lsp.uri(os.path.join(sdir, f))
+
+    def did_open(f, text):
+        ver[f] = 1
+        ls.notify("textDocument/didOpen", {"textDocument": {"uri": U(f), "languageId": "vhdl", "version": 1, "text": text}})
+
+    def change_full(f, text):
+        if f not in ver:
+            did_open(f, text)
+            return
+        ver[f] += 1
+        ls.notify("textDocument/didChange", {"textDocument": {"uri": U(f), "version": ver[f]}, "contentChanges": [{"text": text}]})
+
+    # (1) unsaved edits: the client's buffers differ from the files on disk
+    for f, v in h["shifted"].items():
+        if v == "lines":
+            did_open(f, g["disk_texts"][f])
+            ver[f] += 1
+            ls.notify("textDocument/didChange", {"textDocument": {"uri": U(f), "version": ver[f]}, "contentChanges": [
+                {"range": {"start": {"line": 0, "character": 0}, "end": {"line": 2, "character": 0}}, "text": ""}]})
+        elif v == "open_only":
+            did_open(f, g["texts"][f])
+        else:
+            did_open(f, g["disk_texts"][f])
+            change_full(f, g["texts"][f])
+    for f in g["open"]:
+        if f not in ver:
+            did_open(f, g["texts"][f])
+    lsp.publish_map(ls.sync(), view)
+    # (2) configuration reloads of every kind (after them the in-memory buffers must still be used)
+    toml = os.path.join(sdir, "vhdl_ls.toml")
+    for act in h["reloads"]:
+        if act == "touch":
+            open(toml, "w").write(toml_text(g["libs"]))
+            ls.notify("workspace/didChangeWatchedFiles", {"changes": [{"uri": lsp.uri(toml), "type": 2}]})
+        elif act == "drop_restore" and h["drop_file"]:
+            open(toml, "w").write(toml_text(g["libs"], without=h["drop_file"]))
+            ls.notify("workspace/didChangeWatchedFiles", {"changes": [{"uri": lsp.uri(toml), "type": 2}]})
+            lsp.publish_map(ls.sync(), view)
+            open(toml, "w").write(toml_text(g["libs"]))
+            ls.notify("workspace/didChangeWatchedFiles", {"changes": [{"uri": lsp.uri(toml), "type": 2}]})
+        elif act == "create":
+            ls.notify("workspace/didCreateFiles", {"files": [{"uri": U("zz_new_file.vhd")}]})
+        elif act == "rename":
+            ls.notify("workspace/didRenameFiles", {"files": [{"oldUri": U("zz_old.vhd"), "newUri": U("zz_new.vhd")}]})
+        elif act == "delete":
+            ls.notify("workspace/didDeleteFiles", {"files": [{"uri": U("zz_gone.vhd")}]})
+        lsp.publish_map(ls.sync(), view)
+    # (3) duplicate-unit clash, resolved by editing the OTHER file: the unit of `file` is parked as a duplicate of
+    #     the one in DUP_FILE and takes over when DUP_FILE changes
+    c = h["clash"]
+    if c:
+        change_full(c["file"], "-- emptied\n")
+        change_full(DUP_FILE, c["dup_text"])
+        lsp.publish_map(ls.sync(), view)
+        change_full(c["file"], g["texts"][c["file"]])
+        lsp.publish_map(ls.sync(), view)
+        change_full(DUP_FILE, DUP_FINAL)
+    lsp.publish_map(ls.sync(), view)
+
+
 def lsp_session(lsbin, pdir, libsdir, g, requests):
     """requests: list of dicts {file, line, char, rename: bool}; fills 'prepare' and 'rename' answers.
-    Returns (diagnostics view, capabilities)."""
+    Returns (diagnostics view, capabilities).  History sessions run the server in g["sdir"]; URIs of the answers
+    are mapped back to g["dir"]."""
+    client_dir = pdir
+    pdir = g.get("sdir", pdir)
     ls = lsp.LS(lsbin, pdir, libraries=libsdir)
     try:
         resp, others = ls.initialize()
         caps = (resp.get("result") or {}).get("capabilities") or {}
         view = lsp.publish_map(others)
-        for f in g["open"]:
-            ls.notify("textDocument/didOpen", {"textDocument": {"uri": lsp.uri(os.path.join(pdir, f)), "languageId": "vhdl",
-                                                                "version": 1, "text": g["texts"][f]}})
-        if g["open"]:
-            lsp.publish_map(ls.sync(), view)
+        if g.get("history"):
+            run_history(ls, pdir, g, view)
+        else:
+            for f in g["open"]:
+                ls.notify("textDocument/didOpen", {"textDocument": {"uri": lsp.uri(os.path.join(pdir, f)), "languageId": "vhdl",
+                                                                    "version": 1, "text": g["texts"][f]}})
+            if g["open"]:
+                lsp.publish_map(ls.sync(), view)
         for rq in requests:
             td = {"textDocument": {"uri": lsp.uri(os.path.join(pdir, rq["file"]))},
                   "position": {"line": rq["line"], "character": rq["char"]}}
@@ -312,6 +449,13 @@ def lsp_session(lsbin, pdir, libsdir, g, requests):
                 rn, _ = ls.call("textDocument/rename", td2)
                 rq["rename_raw"] = rn.get("result") if "error" not in rn else {"error": rn["error"]}
         rc = ls.shutdown()
+        if pdir != client_dir:
+            a_, b_ = "file://" + pdir + "/", "file://" + client_dir + "/"
+            view = {u.replace(a_, b_, 1): v for u, v in view.items()}
+            for rq in requests:
+                raw = rq.get("rename_raw")
+                if isinstance(raw, dict) and isinstance(raw.get("changes"), dict):
+                    raw["changes"] = {u.replace(a_, b_, 1): v for u, v in raw["changes"].items()}
         return view, caps, None
     except lsp.ServerDied as ex:
         ls.kill()
@@ -392,7 +536,13 @@ def main(tier, replay=None):
     # ---- which projects / entities
     if replay:
         rp = json.load(open(replay))
-        plan = [] if rp["seed"] == "corpus" else [(rp["seed"], rp["idx"], rp.get("family"))]
+        rfam = rp.get("family")
+        is_hist = bool(rp.get("history"))
+        if is_hist and isinstance(rfam, str) and rfam.startswith("history:"):
+            rfam = rfam[len("history:"):]
+            rfam = None if rfam == "None" else rfam
+        plan = [] if rp["seed"] == "corpus" else ([] if is_hist else [(rp["seed"], rp["idx"], rfam)])
+        hist_plan = [(rp["seed"], rp["idx"])] if is_hist else []
         only_ent = rp.get("ent_id")
         limit = None
     else:
@@ -400,6 +550,10 @@ def main(tier, replay=None):
         plan = [(seed(), i, family_of(seed(), i)) for i in range(nproj)]
         only_ent = None
         limit = 4 if tier == "quick" else None
+        # history sessions: 6 generated + 2 corpus projects (thorough: 24 + 2) on a long-lived server
+        hidx = [i for i in range(nproj) if family_of(seed(), i) is None]
+        hist_plan = [(seed(), i) for i in hidx[:6 if tier == "quick" else 24]] + [("corpus", "sound_basics"),
+                                                                                ("corpus", "entity_decl_items_cross_file")]
     corpus = load_corpus()
     if replay:
         corpus = [c for c in corpus if rp["seed"] == "corpus" and c["idx"] == rp["idx"]]
@@ -415,6 +569,19 @@ def main(tier, replay=None):
         g = c09gen.gen_project(sd, idx, fam)
         g["seed"], g["idx"] = sd, idx
         g["dir"] = os.path.join(pdir_root, "p%d_%d" % (sd, idx))
+        projects.append(g)
+    for (sd, idx) in hist_plan:
+        if sd == "corpus":
+            cs = [c for c in load_corpus() if c["family"] == "corpus:%s" % idx or c["idx"] == idx]
+            if not cs:
+                continue
+            g = cs[0]
+        else:
+            g = c09gen.gen_project(sd, idx, None)
+            g["seed"], g["idx"] = sd, idx
+        add_history(g, random.Random("hist:%s:%s" % (sd, idx)))
+        g["dir"] = os.path.join(pdir_root, "h%s_%s" % (sd, g["idx"]))
+        g["sdir"] = g["dir"] + "_srv"
         projects.append(g)
     stats = {"projects": len(projects), "not_error_free": 0, "renames": 0, "distinct_edit_sets": 0, "refusal_probes": 0,
              "kinds": {}, "families": {}, "edits": 0, "files_touched_max": 0, "known_finding_cases": {},
@@ -432,6 +599,13 @@ def main(tier, replay=None):
         o = {"kind": "input", "seed": g.get("seed"), "idx": g.get("idx"), "family": g["family"],
              "libraries": g["libs"], "files": g["texts"], "opened_by_client": g["open"],
              "replay_cmd": "./check C09 --replay <this file>"}
+        if g.get("history"):
+            o["history"] = True
+            o["history_steps"] = {"files_on_disk": g["disk_texts"], "unsaved_edit_kinds": g["hist"]["shifted"],
+                                  "config_reloads": g["hist"]["reloads"], "dropped_and_restored_file": g["hist"]["drop_file"],
+                                  "duplicate_unit_clash": g["hist"]["clash"],
+                                  "order": "didOpen/didChange until the buffers equal `files`; reloads; clash (empty file, "
+                                           "duplicate in %s, restore file, restore %s); then the request" % (DUP_FILE, DUP_FILE)}
         if rq is not None:
             o["request"] = {"file": rq["file"], "line": rq["line"], "character": rq["char"], "newName": NEW_NAME}
             if rq.get("ent") is not None:
@@ -449,10 +623,21 @@ def main(tier, replay=None):
             shutil.rmtree(pdir_root)
         for g in projects:
             write_project(g["dir"], g["texts"], g["libs"], g["open"])
+            if g.get("history"):
+                write_project(g["sdir"], g["disk_texts"], g["libs"], g["open"])
         # ---- requests per project
         for g in projects:
             R = random.Random("pick:%s:%s" % (g.get("seed"), g.get("idx")))
             ents = pick_entities(R, g["ents"], None if g.get("seed") == "corpus" else limit)
+            if g.get("history") and g.get("seed") != "corpus":
+                # entities declared in the file whose unit took over after the clash, and in files with unsaved edits
+                cf = (g["hist"]["clash"] or {}).get("file")
+                pool = [x for x in g["ents"] if x.renameable and any(o.role == "d" for o in x.occs)]
+                in_c = [x for x in pool if any(o.role == "d" and o.file == cf for o in x.occs)]
+                in_s = [x for x in pool if x not in in_c and any(o.role == "d" and o.file in g["hist"]["shifted"] for o in x.occs)]
+                R.shuffle(in_c)
+                R.shuffle(in_s)
+                ents = in_c[:5] + in_s[:5]
             if only_ent is not None:
                 ents = [x for x in g["ents"] if x.id == only_ent]
             reqs = []
